@@ -133,6 +133,16 @@ CHECKS = {
    note="Bounded to the vocabulary {foo, bar, mit, nicht, <a>, <b>} and parameter types Zahl/Text/type parameter. Where the rule leaves a tie the specification accepts any tied alias.",
    technique="TLA+ resolution rule + TLC trace validation of the real parser's AST over enumerated alias populations and call sites",
    ref="§4 C09"),
+ "C10": dict(
+   text="Modules.tla states the loader (a module is rejected iff a loaded module transitively imports itself), the run (an import statement initialises the target unless done: its "
+        "imports in textual order first, then its own global initialisers; imported top-level statements never run) with the derived facts 'initialised exactly once' and 'after its "
+        "imports', and visibility (exactly the public names, exactly the listed ones for selective imports, never names the target only imported). All import graphs on <=3 modules "
+        "in every textual import order, cyclic arrangements incl. the main module, a seeded sample of 4-module graphs, each with whole-module and selective imports, are materialised; "
+        "the frontend's verdict, the run-time order of initialiser side effects and main statements, and per-name visibility probes are validated by TLC.",
+   note="Every module follows one declaration scheme (same-named private function, public variable with an effectful initialiser, private variable, public function, a top-level "
+        "print). Directory imports are exercised in C03's arrangements only.",
+   technique="TLA+ module-loading/initialisation/visibility specification + TLC trace validation of frontend verdicts and compiled-program output",
+   ref="§4 C10"),
 }
 PENDING = {}
 
